@@ -2,6 +2,7 @@ import OapiVerif.Model.Security
 import OapiVerif.Props.C02
 import OapiVerif.Props.C19
 import OapiVerif.Proofs.QueryWire
+import OapiVerif.Gen.SecurityRule
 /-!
 C18 — Security requirements are carried faithfully on both sides.
 
@@ -351,5 +352,18 @@ example : describe [[(w "a", [w "r"])], [(w "c", [w "x", w "y"])]] = [⟨w "a", 
   simp [describe, describeReq, sortedEmit, sortedKeys, lookup]
 example : keyIdent asciiUni (w "api-key") = w "Api_keyScopes" ∧ keyValue asciiUni (w "api-key") = w "api_key.Scopes" := by decide
 example : cookieSafe (w "abc123") := by unfold cookieSafe; decide
+
+end OapiVerif.Security
+
+namespace OapiVerif.Security
+
+/-- **The override rule as it stands in the source** (`OperationDefinitions`, translated by harness/secrule.go into
+`Gen/SecurityRule.lean` on every run) is the model's `opDefs`: an operation that has a security list of its own — an empty one
+included — carries that list, an operation without one the global list. The translator also checks that the security
+definitions of an operation are assigned in these two places and nowhere else. -/
+theorem C18_security_rule_translated (global : List Req) (op : Option (List Req)) :
+    evalRule Gen.SecurityRule.rule global op = opDefs global op := by
+  unfold Gen.SecurityRule.rule evalRule opDefs pick
+  cases op <;> simp
 
 end OapiVerif.Security
